@@ -8,8 +8,13 @@ budget before running the body, and re-checks stack depth afterwards.
 -/
 import AlgoVerif.Model.AVM
 import AlgoVerif.Lemmas.AVM
+import AlgoVerif.Lemmas.AVMCheck
+import AlgoVerif.Lemmas.AVMAgree
+import AlgoVerif.Gen.OpTable
+import AlgoVerif.Gen.AVMFacts
+import AlgoVerif.Props.C34
 namespace Props.C31
-open Model.OpTables Model.AVM Lemmas.AVM
+open Model.OpTables Model.AVM Lemmas.AVM Lemmas.AVMCheck Lemmas.AVMAgree
 
 /-! ## Part A — skeleton theorems (every table, every `ex`) -/
 
@@ -130,5 +135,117 @@ theorem outcome_trichotomy (ex : Exec) (cfg : Cfg) (prog : List Nat) (pool : Int
       · exact Or.inr (Or.inr ⟨_, rfl⟩)
       · exact Or.inr (Or.inr ⟨_, rfl⟩)
     · exact Or.inr (Or.inr ⟨e, hv⟩)
+
+/-! ## Part B — static check and evaluation agree on instruction boundaries -/
+
+/-- FULL. The loop of `check` is given fuel len+1 and never exhausts it (every round must advance the pc). -/
+theorem check_fuel_suffices (cfg : Cfg) (prog : List Nat) (pool : Int) (pc : Nat) :
+    check cfg prog pool ≠ .error (.fuel, pc) := by
+  unfold check
+  split
+  · intro h; injection h with h; injection h with h _; cases h
+  · split
+    · rename_i e pc' hb
+      intro h; injection h with h; injection h with h _
+      subst h
+      unfold begin at hb
+      repeat' split at hb
+      all_goals first
+        | (injection hb with hb; injection hb with hb _; cases hb; done)
+        | (cases hb; done)
+    · exact checkLoop_fuel _ _ _ _ (by simp only; omega) (by omega)
+
+/-- FULL (for every table whose rows are consistent, `specWF`: the check function a row carries is the one belonging to its
+    evalFunc — decided for today's table below). If `check p = ok`, then every pc `eval` reaches — for every `sem`, every
+    budget, every argument list — is an instruction start recorded by `check` or the end of the program, and so is every
+    return address on the call stack. Taken branch targets (2-byte and varint forms, forward and back, switch / match
+    tables, callsub / retsub) are pcs the run reaches, so they are aligned. -/
+theorem check_eval_agree (sem : Sem) (cfg : Cfg) (prog : List Nat) (pool : Int) (cs : CState) (v vlen : Nat)
+    (hwf : ∀ op next s, getSpec cfg.tbl v op next = some s → specWF s = true)
+    (hc : check cfg prog pool = .ok cs) (hb : begin cfg prog = .ok (v, vlen))
+    (st : State) (hr : Reach (concreteExec sem) cfg prog v (initState cfg vlen pool) st) :
+    (st.pc ∈ cs.starts ∨ st.pc = prog.length) ∧
+    ∀ f ∈ st.m.callstack, f.retpc ∈ cs.starts ∨ f.retpc = prog.length := by
+  obtain ⟨hf, hg⟩ := check_facts hc hb
+  have h0 : J cs.starts prog.length (initState cfg vlen pool) :=
+    ⟨rfl, hg, by intro f hf'; simp [initState, emptyMach] at hf'⟩
+  obtain ⟨_, h2, h3⟩ := reach_J hwf hf h0 hr
+  exact ⟨h2, h3⟩
+
+/-- FULL. The statement C34 left open (`Props.C34.CheckEvalAgreeStatement`), for every list of pcs of reached states
+    (taken branch targets are among them). -/
+theorem check_eval_agree_statement (sem : Sem) (cfg : Cfg) (prog : List Nat) (pool : Int) (cs : CState) (v vlen : Nat)
+    (hwf : ∀ op next s, getSpec cfg.tbl v op next = some s → specWF s = true)
+    (hc : check cfg prog pool = .ok cs) (hb : begin cfg prog = .ok (v, vlen))
+    (reached targets : List Nat)
+    (hreached : ∀ pc ∈ reached, ∃ st, Reach (concreteExec sem) cfg prog v (initState cfg vlen pool) st ∧ st.pc = pc)
+    (htargets : ∀ t ∈ targets, t ∈ reached) :
+    Props.C34.CheckEvalAgreeStatement cs.starts reached targets prog.length := by
+  have key : ∀ pc ∈ reached, pc ∈ cs.starts ∨ pc = prog.length := by
+    intro pc hpc
+    obtain ⟨st, hr, he⟩ := hreached pc hpc
+    rw [← he]
+    exact (check_eval_agree sem cfg prog pool cs v vlen hwf hc hb st hr).1
+  exact ⟨key, fun t ht => key t (htargets t ht)⟩
+
+section Gen
+open Gen.OpTable
+set_option maxRecDepth 100000
+
+theorem gen_rows_wf : opSpecs.all specWF = true := by decide +kernel
+
+theorem specWF_alias0 (r : Spec) : specWF (Props.C34.alias0 r) = specWF r := rfl
+
+/-- FULL (finite, today's table, regenerated every run). Every spec any version's table can return is consistent. -/
+theorem gen_specWF (v op : Nat) (next : Option Nat) (s : Spec)
+    (h : getSpec (buildTables opSpecs) v op next = some s) : specWF s = true := by
+  obtain ⟨hrow, _⟩ := Props.C34.table_version_sound opSpecs v op next s h
+  rcases hrow with hrow | ⟨_, r, hr, _, he⟩
+  · exact List.all_eq_true.mp gen_rows_wf s hrow
+  · subst he
+    rw [specWF_alias0]
+    exact List.all_eq_true.mp gen_rows_wf r hr
+
+/-! ### non-vacuity: a version-8 program with a back-branching loop, run against today's tables and limits -/
+
+def demoLimits : Limits :=
+  { maxStackDepth := Gen.AVMFacts.maxStackDepth, maxStringSize := Gen.AVMFacts.maxStringSize,
+    backBranchV := Gen.AVMFacts.backBranchEnabledVersion, sharedResV := Gen.AVMFacts.sharedResourcesVersion,
+    protoByte := Gen.AVMFacts.protoByte, evalMaxArgs := Gen.AVMFacts.evalMaxArgs,
+    maxArgSize := Gen.AVMFacts.maxLogicSigArgSize, blankLen := Gen.AVMFacts.blankStackLen,
+    scratchLen := Gen.AVMFacts.scratchLen }
+
+def demoCfg (maxCost : Nat) (pooled : Bool) : Cfg :=
+  { lim := demoLimits, tbl := buildTables opSpecs, fcost := fun _ _ => (0, 0, 0, 0), lv := logicVersion, lsv := logicVersion,
+    minv := 0, mode := modeSig, hasAccess := false, args := none, maxCost := maxCost, pooled := pooled, isolate := false }
+
+def demoSem : Sem := fun _ _ _ => .error .unmodelled
+
+/-- `pushint 3; loop: pushint 1; -; dup; bnz loop; pushint 1; return` (version 8, two-byte back branch) -/
+def demoProg : List Nat := [8, 0x81, 3, 0x81, 1, 0x09, 0x49, 0x40, 0xff, 0xf9, 0x81, 1, 0x43]
+
+/-- `callsub f; return; f: pushint 1; retsub`  (version 13: varint callsub, forward offset 1 from the end) -/
+def demoCall : List Nat := [13, 0x88, 2, 0x43, 0x81, 1, 0x89]
+
+def verdictOf (r : Option Final) : Option (Model.AVM.Verdict × Nat × Nat) := r.map (fun f => (f.verdict, f.st.cost, f.steps))
+
+-- eval_terminates / cost_bounded / outcome_trichotomy: the run accepts after 15 steps of cost 1, inside a budget of 20
+example : verdictOf (eval (concreteExec demoSem) (demoCfg 20 false) demoProg 0) = some (.accept, 15, 15) := by decide +kernel
+-- … and with a budget of 9 it stops with the budget error after 9 charged steps (the 10th is refused BEFORE it runs)
+example : verdictOf (eval (concreteExec demoSem) (demoCfg 9 false) demoProg 0) = some (.error .budget, 9, 10) := by decide +kernel
+-- pooled budget of 7 (MaxCost is then irrelevant): cost_bounded / pool_accounting hypotheses
+example : verdictOf (eval (concreteExec demoSem) (demoCfg 20 true) demoProg 7) = some (.error .budget, 7, 8) := by decide +kernel
+-- check_eval_agree hypotheses: check succeeds and records the instruction starts; begin succeeds
+example : (match check (demoCfg 20 false) demoProg 0 with | .ok cs => some cs.starts | .error _ => none) = some [12, 10, 7, 6, 5, 3, 1] := by
+  decide +kernel
+example : (match begin (demoCfg 20 false) demoProg with | .ok r => some r | .error _ => none) = some (8, 1) := by decide +kernel
+example : (match check (demoCfg 20 false) demoCall 0 with | .ok cs => some (cs.starts, cs.targets) | .error _ => none)
+    = some ([6, 4, 3, 1], [4]) := by decide +kernel
+example : verdictOf (eval (concreteExec demoSem) (demoCfg 20 false) demoCall 0) = some (.accept, 4, 4) := by decide +kernel
+-- a branch into the middle of `pushint 3` (pc 2) is rejected by check: the alignment error
+example : (match check (demoCfg 20 false) [8, 0x81, 3, 0x42, 0xff, 0xfc] 0 with | .ok _ => none | .error e => some e) = some (.align, 3) := by
+  decide +kernel
+
+end Gen
 
 end Props.C31
